@@ -69,8 +69,8 @@ contract(C + "_add_charge_conjugate_decays",
              f"forall(lambda j: implies(0 <= j < old(llen({DECAYS})), same(lget({DECAYS}, j), old(lget({DECAYS}, j)))))",
              # every added table is a new object: a private deep copy of one of the existing tables
              f"forall(lambda j: implies(old(llen({DECAYS})) <= j < llen({DECAYS}), isfresh(lget({DECAYS}, j)) and typ(lget({DECAYS}, j), 'obj:Tree')))",
-             f"forall(lambda j: implies(old(llen({DECAYS})) <= j < llen({DECAYS}), "
-             f"   exists(lambda k: 0 <= k < old(llen({DECAYS})) and copied_from(lget({DECAYS}, j), old(lget({DECAYS}, k))))))",
+             # ... none of whose mutable nodes existed before the call (no state shared with the source table)
+             f"forall(lambda j: implies(old(llen({DECAYS})) <= j < llen({DECAYS}), reach_fresh(lget({DECAYS}, j))))",
              # no CDecay statement, nothing added
              f"implies(len({CD}) == 0, llen({DECAYS}) == old(llen({DECAYS})))",
          ],
@@ -79,28 +79,41 @@ contract(C + "_add_charge_conjugate_decays",
              "loop#0": {"invariant": [
                  "typ(mother_names_ccdecays, 'list')", "isfresh(mother_names_ccdecays)",
                  # the names still to be removed are still there; names stay pairwise distinct
-                 "forall(lambda j: implies(_i <= j < len(duplicates), exists(lambda m: 0 <= m < llen(mother_names_ccdecays) and lget(mother_names_ccdecays, m) == lget(duplicates, j))))",
-                 "forall(lambda a, b: implies(0 <= a < b < llen(mother_names_ccdecays), lget(mother_names_ccdecays, a) != lget(mother_names_ccdecays, b)))",
+                 "forall(lambda j: implies(_i <= j < len(duplicates), exists(lambda m: 0 <= m < llen(mother_names_ccdecays) and same(lget(mother_names_ccdecays, m), lget(duplicates, j)))))",
+                 "forall(lambda a, b: implies(0 <= a < b < llen(mother_names_ccdecays), not same(lget(mother_names_ccdecays, a), lget(mother_names_ccdecays, b))))",
+                 "forall(lambda a, b: implies(0 <= a < b < len(duplicates), not same(lget(duplicates, a), lget(duplicates, b))))",
                  "forall(lambda a: implies(0 <= a < llen(mother_names_ccdecays), typ(lget(mother_names_ccdecays, a), 'str')))",
              ], "types": {"mother_names_ccdecays": "list"}},
              "loop#1": {"invariant": [
                  "isfresh(trees_to_conjugate)", "isfresh(misses)", "not same(trees_to_conjugate, misses)",
-                 f"forall(lambda j: implies(0 <= j < llen(trees_to_conjugate), exists(lambda k: 0 <= k < llen({DECAYS}) and same(lget(trees_to_conjugate, j), lget({DECAYS}, k)))))",
+                 f"forall(lambda k: implies(dhas(name2treepos, k), typ(dget(name2treepos, k), 'int') and 0 <= dget(name2treepos, k) < llen({DECAYS})))",
+                 # the trees picked are stored tables: `decay` trees (as far as their head goes) that existed before the call
+                 f"forall(lambda j: implies(0 <= j < llen({DECAYS}), table_head(lget({DECAYS}, j)) and not isfresh(lget({DECAYS}, j))))",
+                 "forall(lambda j: implies(0 <= j < llen(trees_to_conjugate), typ(lget(trees_to_conjugate, j), 'obj:Tree')))",
+                 "forall(lambda j: implies(0 <= j < llen(trees_to_conjugate), not isfresh(lget(trees_to_conjugate, j))))",
+                 "forall(lambda j: implies(0 <= j < llen(trees_to_conjugate), table_head(lget(trees_to_conjugate, j))))",
              ], "types": {"trees_to_conjugate": "list", "misses": "list"}},
              "comp#5": {"invariant": [
                  "isfresh(_acc)", "len(_acc) == _i",
                  "forall(lambda j: implies(0 <= j < _i, isfresh(lget(_acc, j)) and typ(lget(_acc, j), 'obj:Tree') and copied_from(lget(_acc, j), _seq[j]) and reach_fresh(lget(_acc, j))))",
                  "forall(lambda j: implies(0 <= j < _i, table_head(lget(_acc, j))))",
                  "forall(lambda j: implies(0 <= j < _i, refnum(lget(_acc, j).children) >= _loop_alloc and refnum(lget(lget(_acc, j).children, 0).children) >= _loop_alloc))",
+                 # the copies are made one after the other: an earlier one lies entirely below the head token of a later one
+                 "forall(lambda j: implies(0 <= j < _i, reach_within(lget(_acc, j))))",
+                 "forall(lambda j: implies(0 <= j < _i, copy_lo(lget(_acc, j)) <= refnum(lget(lget(lget(_acc, j).children, 0).children, 0)) < copy_hi(lget(_acc, j))))",
+                 "forall(lambda j: implies(0 <= j < _i, copy_hi(lget(_acc, j)) <= heap_alloc()))",
+                 "forall(lambda a, b: implies(0 <= a < b < _i, copy_hi(lget(_acc, a)) <= copy_lo(lget(_acc, b))))",
              ], "types": {"_acc": "list"}},
              "loop#2": {"invariant": [
                  "typ(cdecays, 'list')", "llen(cdecays) == _n",
                  "forall(lambda j: implies(0 <= j < llen(cdecays), same(lget(cdecays, j), _seq[j])))",
                  "forall(lambda j: implies(0 <= j < llen(cdecays), isfresh(lget(cdecays, j)) and typ(lget(cdecays, j), 'obj:Tree') and reach_fresh(lget(cdecays, j))))",
                  "forall(lambda j: implies(_i <= j < llen(cdecays), table_head(lget(cdecays, j))))",
+                 "forall(lambda j: implies(0 <= j < llen(cdecays), reach_within(lget(cdecays, j)) and copy_lo(lget(cdecays, j)) <= refnum(lget(lget(lget(cdecays, j).children, 0).children, 0)) < copy_hi(lget(cdecays, j))))",
+                 "forall(lambda a, b: implies(0 <= a < b < llen(cdecays), copy_hi(lget(cdecays, a)) <= copy_lo(lget(cdecays, b))))",
                  "typ(dict_cc_names, 'dict') and is_dict_str_str(dict_cc_names)",
                  f"same({DECAYS}, old({DECAYS}))", f"llen({DECAYS}) == old(llen({DECAYS}))",
                  f"forall(lambda j: implies(0 <= j < llen({DECAYS}), same(lget({DECAYS}, j), old(lget({DECAYS}, j)))))",
              ], "modifies": ["dict_cc_names"], "modifies_fields": ["value", "charge_conj_defs"]},
          },
-         modifies=[DECAYS], returns="none", properties=[])   # WIP
+         modifies=[DECAYS], returns="none", properties=["C03", "C08"])
